@@ -18,6 +18,8 @@ use simcore::worker::Scenario;
 static ALLOC: simcore::quarantine::Quarantine = simcore::quarantine::Quarantine;
 
 fn main() {
+    // freed memory is filled with 0xDD: code that goes on using a freed operation or buffer trips over it
+    simcore::quarantine::set_poison(true);
     // compio caches the io_uring opcode probe in a process-wide static: take that once, outside any
     // run, so that no run depends on whether it was the first one in its process
     simkernel::begin(simkernel::KConfig::default());
